@@ -2,6 +2,7 @@ import GoLevel.Gen.Consts
 import GoLevel.Model.Bytes
 import GoLevel.Model.Filter
 import GoLevel.Model.Block
+import GoLevel.Model.Snappy
 /-!
 # Sorted tables (`table/table.go`, `table/writer.go`, `table/reader.go`), NoCompression
 
@@ -12,7 +13,7 @@ mirrors `NewReader` (the `cache == nil` path, which reads index and filter block
 
 The checksum is a parameter: `cksum bs` is `util.NewCRC(bs).Value()`, applied to payload ‖ type byte.
 Preconditions of the writer that are not modelled as errors: keys strictly increasing (the code returns an
-error otherwise), `restartInterval ≥ 1`, `filterBaseLg < 64`.  Snappy blocks read as corrupted.
+error otherwise), `restartInterval ≥ 1`, `filterBaseLg < 64`.  The writer is modelled for NoCompression only; the reader also decodes snappy blocks (`Model/Snappy.lean`).
 -/
 namespace GoLevel
 
@@ -47,6 +48,9 @@ def BH.decode (src : Bytes) : Option (BH × Nat) :=
 
 /-- compression-type byte of an uncompressed block -/
 def blockTypeByte : UInt8 := Gen.blockTypeNoCompression.toUInt8
+
+/-- compression-type byte of a snappy block -/
+def snappyTypeByte : UInt8 := Gen.blockTypeSnappyCompression.toUInt8
 
 /-- payload ‖ type ‖ LE32 checksum, as `Writer.writeBlock` emits it for `opt.NoCompression` -/
 def withTrailer (cksum : Bytes → Nat) (payload : Bytes) : Bytes :=
@@ -192,13 +196,15 @@ inductive Result (α : Type) where
   | corrupt : Result α
 deriving DecidableEq, Repr
 
-/-- `Reader.readRawBlock`.  `none` = corrupted.  A short read (which the code lets pass when the error is
-`io.EOF`, continuing on whatever the buffer held) and a snappy block are `none` as well. -/
+/-- `Reader.readRawBlock`.  `none` = corrupted (checksum mismatch, unknown compression type, or a snappy block
+that does not decode).  A short read (which the code lets pass when the error is `io.EOF`, continuing on
+whatever the buffer held) is `none` as well. -/
 def readRawBlock (cksum : Bytes → Nat) (file : Bytes) (bh : BH) (verify : Bool) : Option Bytes :=
   let data := (file.drop bh.offset).take (bh.length + Gen.blockTrailerLen)
   if data.length < bh.length + Gen.blockTrailerLen then none
   else if verify && rd32 (data.drop (bh.length + 1)) != cksum (data.take (bh.length + 1)) then none
   else if (data.drop bh.length).head? = some blockTypeByte then some (data.take bh.length)
+  else if (data.drop bh.length).head? = some snappyTypeByte then Snappy.decode (data.take bh.length)
   else none
 
 /-- `Reader.readBlock` -/
